@@ -595,6 +595,23 @@ func longInputs(s *SS) {
 				s.EvalD(j.base[:mid] + p + j.base[mid:])
 			}
 		}
+		// tails / heads / infixes of EXACT lengths around the powers of two (a narrow length counter wraps on the
+		// number of extra bytes, not on the total)
+		for _, tl := range []int{127, 128, 129, 255, 256, 257, 511, 512, 513, 767, 768, 769, 1024, 65535, 65536, 65537} {
+			n := tl / len(j.fill)
+			pad := strings.Repeat(j.fill, n)
+			for len(pad) < tl {
+				pad += j.fill[:1]
+			}
+			pad = pad[:tl]
+			s.EvalD(j.base + pad)
+			s.EvalD(pad + j.base)
+			mid := len(j.base) / 2
+			s.EvalD(j.base[:mid] + pad + j.base[mid:])
+			if len(j.ver.Header) > 0 {
+				s.EvalD(j.ver.Header + pad + j.base[len(j.ver.Header):])
+			}
+		}
 		// many elements: the valid vector's element list repeated, cut at interesting counts
 		hdr := j.ver.Header
 		body := strings.TrimPrefix(strings.TrimPrefix(j.base, hdr), "/")
